@@ -350,3 +350,88 @@ pub fn ram_bundle() -> Report {
     } } }
     r("ram_bundle", bound, cases, None)
 }
+
+// ------------------------------------------------------------------ C05 (every entry point and every query on whatever comes back, over mutated documents)
+/// everything the property lists for a returned map: iteration, lookups, accessors with any index, formatting, function-name resolution,
+/// serialisation (whose output must decode again), rewriting with every combination of the in-memory options, flattening
+fn exercise(dm: &DecodedMap, text: &str) -> Result<(), String> {
+    use sourcemap::RewriteOptions;
+    let sv = SourceView::new(text.into());
+    let probe = [0u32, 1, 2, 3, 7, 100, u32::MAX - 1, u32::MAX];
+    let _ = format!("{dm:?}");
+    let reg = |sm: &SourceMap| -> Result<(), String> {
+        for t in sm.tokens() { let _ = (format!("{t}"), format!("{t:#}"), format!("{t:?}"), t.to_tuple(), t.get_source(), t.get_name(), t.get_source_view().map(|v| v.source().len()), t.get_raw_token()); }
+        for &i in &probe { let _ = (sm.get_token(i as usize).map(|t| t.get_dst()), sm.get_source(i), sm.get_name(i), sm.get_source_contents(i), sm.get_source_view(i).map(|v| v.line_count())); }
+        let _ = (sm.get_file(), sm.get_source_root(), sm.get_debug_id(), sm.get_token_count(), sm.get_source_count(), sm.get_name_count(), sm.sources().count(), sm.names().count(), sm.source_contents().count(), sm.ignore_list().count());
+        for &l in &probe { for &c in &probe { let _ = sm.lookup_token(l, c).map(|t| (t.get_src(), format!("{t}"))); for name in ["f", "", "é", "function"] { let _ = sm.get_original_function_name(l, c, name, &sv); } } }
+        let mut out = vec![]; sm.to_writer(&mut out).map_err(|e| format!("to_writer: {e}"))?;
+        sourcemap::decode_slice(&out).map_err(|e| format!("the serialised form does not decode again: {e}"))?;
+        let _ = sm.to_data_url().map_err(|e| format!("to_data_url: {e}"))?;
+        for mask in 0..8u32 { let pre: &[&str] = if mask & 4 != 0 { &["~", "a", "/"] } else { &[] };
+            let o = RewriteOptions { with_names: mask & 1 != 0, with_source_contents: mask & 2 != 0, load_local_source_contents: false, strip_prefixes: pre, ..Default::default() };
+            let r = sm.clone().rewrite(&o).map_err(|e| format!("rewrite: {e}"))?; let _ = r.tokens().count(); }
+        Ok(())
+    };
+    match dm {
+        DecodedMap::Regular(sm) => reg(sm)?,
+        DecodedMap::Hermes(h) => { reg(h)?; for &c in &probe { let _ = h.get_original_function_name(c); } for t in h.tokens() { let _ = h.get_scope_for_token(t); }
+            let mut out = vec![]; h.to_writer(&mut out).map_err(|e| format!("to_writer: {e}"))?; sourcemap::decode_slice(&out).map_err(|e| format!("the serialised Hermes map does not decode again: {e}"))?;
+            let _ = h.clone().rewrite(&RewriteOptions::default()).map(|m| m.get_token_count()); }
+        DecodedMap::Index(idx) => {
+            let _ = (idx.get_file(), idx.get_section_count());
+            for s in idx.sections() { let _ = (s.get_offset(), s.get_url(), s.get_sourcemap().is_some()); }
+            for &l in &probe { for &c in &probe { let _ = idx.lookup_token(l, c).map(|t| format!("{t:#}")); let _ = idx.get_original_function_name(l, c, "f", &sv); } }
+            let mut out = vec![]; idx.to_writer(&mut out).map_err(|e| format!("to_writer: {e}"))?; sourcemap::decode_slice(&out).map_err(|e| format!("the serialised index map does not decode again: {e}"))?;
+            if let Ok(flat) = idx.flatten() { reg(&flat)?; }
+            let _ = idx.clone().flatten_and_rewrite(&RewriteOptions::default()).map(|m| m.get_token_count());
+        }
+    }
+    for &l in &probe { for &c in &probe { let _ = dm.lookup_token(l, c).map(|t| t.get_src()); let _ = dm.get_original_function_name(l, c, Some("f"), Some(&sv)); let _ = dm.get_original_function_name(l, c, None, None); } }
+    Ok(())
+}
+pub fn decode_mutants() -> Report {
+    let bound_s = format!("9 seed documents (regular with names / contents / root / ignoreList / rangeMappings, Hermes with metadata, index with nested and unresolved sections, junk header) and every single-byte {} of each: every decoding and detection entry point (slice, reader, data URL, reference discovery), then every query / serialisation / rewrite / flatten on whatever is returned", if crate::deep() { "replacement by one of 24 bytes, deletion and duplication" } else { "replacement by one of 12 bytes, deletion and duplication" });
+    let bound = bound_s.as_str();
+    let mut cases = 0u64;
+    let docs: Vec<&str> = vec![
+        r#"{"version":3,"file":"o.js","sourceRoot":"r/","sources":["a.js",null,"/b.js"],"sourcesContent":["function f(){}",null,"x"],"names":["n",7],"mappings":"AAAAA,CCAAC;;CCAAC,EADA","ignoreList":[1]}"#,
+        r#"{"version":3,"sources":["a.js"],"names":[],"mappings":"AAAA,UAAU;AACA","rangeMappings":"B;A","debug_id":"00000000-0000-0000-0000-000000000001"}"#,
+        r#"{"version":3,"sources":["a.js","b.js"],"names":[],"mappings":"AAAA,oGCAA","x_facebook_sources":[[{"names":["<global>","foo"],"mappings":"AAA,UCA;CCC"}],null]}"#,
+        r#"{"version":3,"sources":["a.js"],"names":[],"mappings":"AAAA","x_facebook_sources":[[{"names":[],"mappings":"AAA;ECg"}]],"x_facebook_offsets":[0,null],"x_metro_module_paths":["m"]}"#,
+        r#"{"version":3,"file":"i.js","sections":[{"offset":{"line":0,"column":0},"map":{"version":3,"sources":["a.js"],"names":["n"],"mappings":"AAAAA,CAAC"}},{"offset":{"line":1,"column":5},"map":{"version":3,"sources":["a.js"],"sourcesContent":["c"],"names":[],"mappings":"AAAA;AACA","ignoreList":[0]}}]}"#,
+        r#"{"version":3,"sections":[{"offset":{"line":0,"column":3},"map":{"version":3,"sections":[{"offset":{"line":2,"column":1},"map":{"version":3,"sources":["n.js"],"names":[],"mappings":"AAAA"}}]}},{"offset":{"line":9,"column":0},"url":"x.map"}]}"#,
+        ")]}'\n{\"version\":3,\"sources\":[\"a.js\"],\"names\":[],\"mappings\":\"AAAA\"}",
+        r#"{"version":3,"sources":["/x/y/a.js","/x/y/b.js","/x/z.js","c:\\q\\d.js"],"names":["é"],"mappings":"AAAAA,CCAA,CCAA,CCAA"}"#,
+        r#"{"version":3,"sources":[],"names":[],"mappings":";;;,,;"}"#,
+    ];
+    let mut alphabet: Vec<u8> = vec![b'"', b',', b':', b'[', b'{', b'}', b'0', b'9', b'-', b'A', b'/', b'\\'];
+    if crate::deep() { alphabet.extend([b']', b';', b'g', b'n', b't', b'e', b'.', b' ', b'\n', b'\r', 0xff, 0x00]); }
+    let text = "function f(){}\n x=function g(){};\u{e9}";
+    let check = |v: &[u8], what: &str| -> Option<String> {
+        let show = || String::from_utf8_lossy(v).into_owned();
+        let res = guarded(|| -> Result<(), String> {
+            let a = sourcemap::decode_slice(v);
+            let b = sourcemap::decode(v);
+            if a.is_ok() != b.is_ok() { return Err(format!("decode_slice is {} but decode (reader) is {}", if a.is_ok() { "Ok" } else { "Err" }, if b.is_ok() { "Ok" } else { "Err" })); }
+            let _ = (sourcemap::is_sourcemap_slice(v), sourcemap::is_sourcemap(v), locate_sourcemap_reference_slice(v).map(|r| r.map(|r| r.get_url().len())), SourceMap::from_slice(v).is_ok(), sourcemap::SourceMapIndex::from_slice(v).is_ok(), sourcemap::SourceMapHermes::from_slice(v).is_ok());
+            if let Ok(s) = std::str::from_utf8(v) { let _ = decode_data_url(s); let _ = decode_data_url(&format!("data:application/json;base64,{s}")); let _ = SourceView::new(s.into()).lines().count(); }
+            if let Ok(dm) = a { exercise(&dm, text)?; }
+            Ok(())
+        });
+        match res { Ok(Ok(())) => None, Ok(Err(e)) => Some(format!("{what} {:?}: {e}", show())), Err(p) => Some(format!("{what} {:?}: {p}", show())) }
+    };
+    for doc in &docs {
+        let bytes = doc.as_bytes();
+        cases += 1; crate::witness(sourcemap::decode_slice(bytes).is_ok());
+        if let Some(c) = check(bytes, "seed document") { return r("decode_mutants", bound, cases, Some(c)); }
+        for i in 0..bytes.len() {
+            let mut variants: Vec<Vec<u8>> = vec![];
+            for &a in &alphabet { if a != bytes[i] { let mut v = bytes.to_vec(); v[i] = a; variants.push(v); } }
+            let mut v = bytes.to_vec(); v.remove(i); variants.push(v);
+            let mut v = bytes.to_vec(); v.insert(i, bytes[i]); variants.push(v);
+            for v in &variants { cases += 1; if sourcemap::decode_slice(v).is_ok() { crate::witness(true); }
+                if let Some(c) = check(v, &format!("document with byte {i} changed:")) { return r("decode_mutants", bound, cases, Some(c)); } }
+        }
+    }
+    r("decode_mutants", bound, cases, None)
+}
